@@ -17,8 +17,11 @@ Status on the code as written: "at most one binding" is proved for all sequentia
 schedule check₁ check₂ insert₁ insert₂ (`c09_at_most_one_refuted`) and proved for all interleavings of the repaired
 operation (`c09_at_most_one_schedules`). "A delete removes exactly the addressed binding" is REFUTED twice
 (`c09_unbind_disjunct_refuted`, `c09_delete_by_device_refuted`), proved for the repaired member and, for every
-member, in the region named by `c09_delete_partial`. Not merged: the event model `Bind` is separate from the family
-`Reg` (the schedule theorems speak about abstract server / client ids). Events are monitored by the harness only.
+member, in the region named by `c09_delete_partial`. Merged only lightly: the event model `Bind` is separate from the
+family `Reg` (the schedule theorems speak about abstract server / client ids); the bridge is `c09_halves` (AddBinding
+= check half ; insert half) with the witness restated in the family (`c09_at_most_one_refuted_family`). For the
+repaired operation — one critical section — every interleaving of requests is a sequential history, which is what
+`c09_at_most_one` quantifies over with the real role / type checks. Events are monitored by the harness only.
 -/
 namespace Spine.Props.C09
 open Spine
@@ -78,6 +81,25 @@ example : (Reg.run {} loc rem hist).binds.map Reg.key =
 theorem c09_at_most_one_refuted :
     ¬ Bind.AtMostOne (Bind.run [.check 1 7 100, .check 2 7 200, .insert 1, .insert 2]) :=
   Bind.current_code_violates
+
+/-- The same schedule in the registry family (real roles, types, two peers with identical numbering): `AddBinding`
+    is the check half followed by the insert half (`Reg.addBind_halves`); both checks pass on the same state and both
+    insertions leave two bindings on server feature [1]/1. -/
+theorem c09_at_most_one_refuted_family :
+    let fs : List Reg.Feat := [⟨[1], 1, 1, .client⟩]
+    let s : Reg.St := { loc := [⟨[1], 1, 1, .server⟩], rem := fun _ => fs }
+    Reg.bindCheck s 1 [1] 1 [1] 1 1 = true ∧ Reg.bindCheck s 2 [1] 1 [1] 1 1 = true ∧
+    (Reg.onServer (Reg.bindInsert (Reg.bindInsert s 1 [1] 1 [1] 1) 2 [1] 1 [1] 1) [1] 1).length = 2 :=
+  Reg.bind_interleaving_witness
+
+/-- the two halves run without interruption are the sequential operation all other theorems speak about -/
+theorem c09_halves (s : Reg.St) (p : Nat) (cEnt : List Nat) (cFeat : Nat) (sEnt : List Nat) (sFeat typ : Nat) :
+    Reg.addBind s p cEnt cFeat sEnt sFeat typ =
+      if Reg.bindCheck s p cEnt cFeat sEnt sFeat typ then (Reg.bindInsert s p cEnt cFeat sEnt sFeat, true) else (s, false) :=
+  Reg.addBind_halves s p cEnt cFeat sEnt sFeat typ
+
+example : Reg.bindCheck s0 1 [1] 1 [1] 1 1 = true ∧ Reg.bindCheck (Reg.bindInsert s0 2 [1] 1 [1] 1) 1 [1] 1 [1] 1 1 = false := by
+  decide
 
 /-- PARTIAL, the code as written, event model: at most one binding per server feature as long as requests do not
     overlap (every check is immediately followed by its insertion). The excluded region — overlapping requests — is
